@@ -81,7 +81,24 @@ Tt2Why(e) ==
      ELSE IF ~good /\ e.out # "Transmission" THEN <<"inv", <<"Tt2BadCrcRejected">>, e.out, e.dn, e.ds>>
      ELSE <<>>
 
-Why == CASE K = "cmd" -> CmdWhy(Ev) [] K = "rsp" -> RspWhy(Ev) [] K = "crc" -> CrcWhy(Ev)
+\* --- kind "tt2x": CRC_A ownership for every SEL_RES class of a Type A target --------------------------
+\* e.chip / e.drv = how often the (simulated) chip resp. the driver's check_crc_a verified CRC_A in this
+\* exchange; the chip does it iff its RxCRCEn (PN53x) / check_crc (RC-S380) setting is on, which the driver
+\* controls (sense_tta / in_set_protocol).  Data handed to the caller was checked by exactly one party,
+\* carries no CRC bytes, and a frame with a wrong CRC_A is never accepted.
+Tt2xWhy(e) ==
+  LET rf == IF e.bit < 0 THEN C.rf
+            ELSE [C.rf EXCEPT ![(e.bit \div 8) + 1] = C.rf[(e.bit \div 8) + 1] ^^ Pow2(e.bit % 8)]
+      good == CheckCrcA(rf)
+      want == Front2(rf)
+  IN IF e.out = "Data" /\ e.chip + e.drv # 1 THEN <<"inv", <<"CrcCheckedByExactlyOneParty">>, e.sel, e.chip, e.drv>>
+     ELSE IF e.out = "Data" /\ (e.dn # Len(want) \/ e.ds # Sum(want)) THEN <<"inv", <<"NoCrcBytesInData">>, e.sel, e.dn, Len(want)>>
+     ELSE IF e.out = "Data" /\ ~good THEN <<"inv", <<"BadCrcNeverAccepted">>, e.sel, e.chip, e.drv>>
+     ELSE IF good /\ e.out # "Data" THEN <<"inv", <<"GoodCrcAccepted">>, e.sel, e.out, e.x>>
+     ELSE IF ~good /\ e.out # "Transmission" THEN <<"inv", <<"BadCrcIsTransmissionError">>, e.sel, e.out, e.x>>
+     ELSE <<>>
+
+Why == CASE K = "cmd" -> CmdWhy(Ev) [] K = "tt2x" -> Tt2xWhy(Ev) [] K = "rsp" -> RspWhy(Ev) [] K = "crc" -> CrcWhy(Ev)
          [] K = "crctab" -> TabWhy(Ev) [] K = "tt2" -> Tt2Why(Ev)
 
 TInit == tid \in 1..Len(Traces) /\ l = 1
